@@ -1,8 +1,11 @@
 #!/bin/bash
-# re-runs every stored seed against its property's quick check; prints CAUGHT/MISSED per seed
+# re-runs every stored seed against its property's quick check in a scratch worktree (GOSYM_REPO); prints CAUGHT/MISSED
 cd /verif
+wt=/tmp/wt-allseeds
+git -C /repo worktree remove --force $wt 2>/dev/null; git -C /repo worktree add -q --detach $wt HEAD || exit 2
 for d in seeded/*/; do
   s=$(basename $d); p=${s%%-*}
-  out=$(tools/try_seed.sh $p /verif/$d/patch.diff 2>&1)
+  out=$(tools/try_seed_wt.sh $p /verif/$d/patch.diff $wt 2>&1)
   if echo "$out" | grep -q "^VIOLATION"; then echo "CAUGHT $s"; else echo "MISSED $s"; echo "$out" | head -3; fi
 done
+git -C /repo worktree remove --force $wt
